@@ -55,7 +55,7 @@ def m_hb(a):
     return ("bool", a[1] % 2 == 0)
 
 
-def m_err(a):
+def m_err(*a):
     raise lang.ModelErr("host error")
 
 
@@ -67,7 +67,7 @@ def m_contains(a, b):
     return ("bool", True)
 
 
-MODEL = {"h0": m_h0, "h1": m_h1, "h2": m_h2, "h3": m_h3, "hs": m_hs, "hb": m_hb, "herr": m_err, "hval": m_err, "htyp": m_err, "size": m_size, "contains": m_contains}
+MODEL = {"size#bad": m_err, "contains#bad": m_err, "string#bad": m_err, "h0": m_h0, "h1": m_h1, "h2": m_h2, "h3": m_h3, "hs": m_hs, "hb": m_hb, "herr": m_err, "hval": m_err, "htyp": m_err, "size": m_size, "contains": m_contains}
 BASE = ["h0", "h1", "h2", "h3", "hs", "hb", "herr", "hval", "htyp"]
 
 
@@ -78,7 +78,7 @@ class CountingModel(lang.Model):
         self.calls = []
         funcs = {}
         for n in names:
-            funcs[n] = self._wrap(n)
+            funcs[n.split("#")[0]] = self._wrap(n)  # 'size#bad' is bound under the name 'size'
         super().__init__(env, funcs)
 
     def _wrap(self, n):
@@ -93,8 +93,17 @@ class CountingModel(lang.Model):
 def make_functions(kind, names):
     """Return {name: callable} for the requested kind; every callable records into hostfuncs.LOG."""
     out = {}
-    for n in names:
-        base = getattr(hostfuncs, n)
+    for n0 in names:
+        base = getattr(hostfuncs, n0.replace("#", "_"))
+        n = n0.split("#")[0]
+        if n != n0:
+            import types
+
+            # bound under the built-in's name also in the list style (which goes by __name__)
+            alias = types.FunctionType(base.__code__, base.__globals__, n)
+            alias.__qualname__ = n
+            alias.__module__ = base.__module__
+            base = alias
         if kind == "module-def":
             out[n] = base
         elif kind == "nested-def":
@@ -201,6 +210,17 @@ def programs():
         add(f"false ? 1 : {en}(a)", Node("cond", "int", F_, I(1), Node("call", "int", en, X)), {en: (1, 1)})
         add(f"a.{en}() + 1", Node("bin", "int", "+", Node("meth", "int", en, X), I(1)), {en: (1, 1)})
         add(f"[1,2].all(e, {en}(e))", Node("macro", "bool", "all", Node("list", ("list", "int"), I(1), I(2)), "e", Node("call", "bool", en, E)), {en: (1, 2)})
+    # overrides of built-ins that FAIL: the failure is an evaluation error of that call (the built-in must not step in)
+    L2 = Node("list", ("list", "int"), I(1), I(2))
+    add("size(l) override raises TypeError", Node("call", "int", "size", L2), {"size#bad": (1, 1)})
+    add("l.size() override raises TypeError", Node("meth", "int", "size", L2), {"size#bad": (1, 1)})
+    add("size(l) == 2 || true, override raises", Node("bin", "bool", "||", Node("bin", "bool", "==", Node("call", "int", "size", L2), I(2)), T_), {"size#bad": (0, 1)})
+    add("[l, l].map(e, size(e)) override raises", Node("macro", ("list", "int"), "map", Node("list", ("list", ("list", "int")), L2, L2), "e", Node("call", "int", "size", Node("var", ("list", "int"), "e"))), {"size#bad": (1, 2)})
+    add("size(l) > 0 ? 1 : 2, override raises", Node("cond", "int", Node("bin", "bool", ">", Node("call", "int", "size", L2), I(0)), I(1), I(2)), {"size#bad": (1, 1)})
+    add("s.contains(t) override returns error", Node("meth", "bool", "contains", S("abc"), S("b")), {"contains#bad": (1, 1)})
+    add("s.contains(t) && false, override returns error", Node("bin", "bool", "&&", Node("meth", "bool", "contains", S("abc"), S("b")), F_), {"contains#bad": (0, 1)})
+    add("string(1) override raises AttributeError", Node("call", "string", "string", I(1)), {"string#bad": (1, 1)})
+    add("string(1) + 'x' override raises AttributeError", Node("bin", "string", "+", Node("call", "string", "string", I(1)), S("x")), {"string#bad": (1, 1)})
     # shadowing built-ins
     add("size(l) shadowed", Node("call", "int", "size", Node("list", ("list", "int"), I(1), I(2))), {"size": (1, 1)})
     add("l.size() shadowed", Node("meth", "int", "size", Node("list", ("list", "int"), I(1), I(2))), {"size": (1, 1)})
